@@ -13,9 +13,16 @@
 (* created (tokio documents that a `Notified` receives every `notify_waiters` issued    *)
 (* after its creation, polled or not).                                                  *)
 (*                                                                                      *)
+(* Each guard belongs to a blocking task (RedbStore: the spawn_blocking closure of read_tx / *)
+(* write_tx owns it); `running` = tasks whose blocking work is still in flight.  The task's  *)
+(* caller (the async fn awaiting the JoinHandle) may go away at any time - timeout, select!, *)
+(* aborted worker - which is CallerCancel(g): it must not release the count, the task goes   *)
+(* on.  C41 is about the tasks: the waiter may get through only when none is running.        *)
+(*                                                                                      *)
 (* Deviation selects deliberately wrong designs (used to show the checks are not        *)
 (* vacuous): "swap_drop" notifies before releasing the count, "arm_after_check" creates *)
-(* the `Notified` only after reading the count.                                         *)
+(* the `Notified` only after reading the count, "guard_in_caller" lets the caller own the  *)
+(* guard so that cancelling the caller releases the count while the task still runs.      *)
 EXTENDS Naturals, FiniteSets
 
 CONSTANTS N,            \* number of guards
@@ -26,19 +33,23 @@ VARIABLES gpc,    \* guard -> "none" (not created) | "held" | "mid" (between its
           wpc,    \* waiter: "W0" | "W1" | "W2" | "P" (parked) | "W3" | "Done"
           count,  \* strong_count - 1
           epoch,  \* number of notify_waiters calls so far
-          armed   \* epoch captured by the waiter's current Notified future (-1 coded as 0 with flag)
+          armed,  \* epoch captured by the waiter's current Notified future (-1 coded as 0 with flag)
+          running,   \* guards whose task's blocking work is in flight
+          cancelled  \* guards whose caller has gone away
 
-vars == <<gpc, wpc, count, epoch, armed>>
+vars == <<gpc, wpc, count, epoch, armed, running, cancelled>>
 Guards == 1..N
 NotArmed == 1000000   \* "no Notified future yet": never below epoch
 
 TypeOK == /\ gpc \in [Guards -> {"none", "held", "mid", "done"}]
           /\ wpc \in {"W0", "W1", "W2", "P", "W3", "Done"}
           /\ count \in 0..N /\ epoch \in 0..N /\ armed \in (0..N) \cup {NotArmed}
+          /\ running \subseteq Guards /\ cancelled \subseteq Guards
 
 Init == /\ gpc \in IF LateGuards THEN [Guards -> {"none", "held"}] ELSE {[g \in Guards |-> "held"]}
         /\ count = Cardinality({g \in Guards : gpc[g] = "held"})
         /\ wpc = "W0" /\ epoch = 0 /\ armed = NotArmed
+        /\ running = {g \in Guards : gpc[g] = "held"} /\ cancelled = {}
 
 \* effect of the two primitive guard operations
 Release == count' = count - 1 /\ UNCHANGED <<epoch, wpc>>
@@ -46,31 +57,44 @@ Wake    == epoch' = epoch + 1 /\ wpc' = (IF wpc = "P" THEN "W2" ELSE wpc) /\ UNC
 
 Create(g) == /\ LateGuards /\ gpc[g] = "none" /\ wpc # "Done"
              /\ gpc' = [gpc EXCEPT ![g] = "held"] /\ count' = count + 1
-             /\ UNCHANGED <<wpc, epoch, armed>>
+             /\ running' = running \cup {g}
+             /\ UNCHANGED <<wpc, epoch, armed, cancelled>>
+\* the task's blocking work is over and its guard starts to drop
 G1(g) == /\ gpc[g] = "held" /\ gpc' = [gpc EXCEPT ![g] = "mid"]
          /\ IF Deviation = "swap_drop" THEN Wake ELSE Release
-         /\ UNCHANGED armed
+         /\ running' = running \ {g}
+         /\ UNCHANGED <<armed, cancelled>>
 G2(g) == /\ gpc[g] = "mid" /\ gpc' = [gpc EXCEPT ![g] = "done"]
          /\ IF Deviation = "swap_drop" THEN Release ELSE Wake
-         /\ UNCHANGED armed
+         /\ UNCHANGED <<armed, running, cancelled>>
+\* the caller's future is dropped while its task may still be running: nothing may change for the waiter
+CallerCancel(g) ==
+    /\ gpc[g] # "none" /\ g \notin cancelled /\ cancelled' = cancelled \cup {g}
+    /\ IF Deviation = "guard_in_caller" /\ gpc[g] = "held"
+       THEN /\ gpc' = [gpc EXCEPT ![g] = "mid"] /\ Release          \* the guard dies with the caller, the task runs on
+       ELSE UNCHANGED <<gpc, count, epoch, wpc>>
+    /\ UNCHANGED <<armed, running>>
+\* (guard_in_caller only) the orphaned task ends
+TaskEnd(g) == /\ Deviation = "guard_in_caller" /\ g \in running /\ gpc[g] # "held"
+              /\ running' = running \ {g} /\ UNCHANGED <<gpc, wpc, count, epoch, armed, cancelled>>
 
 W0 == /\ wpc = "W0" /\ wpc' = "W1"
       /\ armed' = (IF Deviation = "arm_after_check" THEN armed ELSE epoch)
-      /\ UNCHANGED <<gpc, count, epoch>>
+      /\ UNCHANGED <<gpc, count, epoch, running, cancelled>>
 W1 == /\ wpc = "W1" /\ wpc' = (IF count > 0 THEN "W2" ELSE "Done")
-      /\ UNCHANGED <<gpc, count, epoch, armed>>
+      /\ UNCHANGED <<gpc, count, epoch, armed, running, cancelled>>
 W2 == /\ wpc = "W2"
       /\ IF Deviation = "arm_after_check" /\ armed = NotArmed
             THEN armed' = epoch /\ wpc' = "P"            \* future created here: nothing to receive yet
             ELSE /\ wpc' = (IF epoch > armed THEN "W3" ELSE "P")
                  /\ UNCHANGED armed
-      /\ UNCHANGED <<gpc, count, epoch>>
+      /\ UNCHANGED <<gpc, count, epoch, running, cancelled>>
 W3 == /\ wpc = "W3" /\ wpc' = "W1"
       /\ armed' = (IF Deviation = "arm_after_check" THEN NotArmed ELSE epoch)
-      /\ UNCHANGED <<gpc, count, epoch>>
+      /\ UNCHANGED <<gpc, count, epoch, running, cancelled>>
 
 WNext == W0 \/ W1 \/ W2 \/ W3
-GNext == \E g \in Guards : Create(g) \/ G1(g) \/ G2(g)
+GNext == \E g \in Guards : Create(g) \/ G1(g) \/ G2(g) \/ CallerCancel(g) \/ TaskEnd(g)
 Next  == WNext \/ GNext
 
 \* the waiter is scheduled fairly; guards owe nothing (a task may run for ever)
@@ -79,12 +103,12 @@ Spec == Init /\ [][Next]_vars /\ WF_vars(WNext)
 ----------------------------------------------------------------------------
 \* C41, first half: close returns only after every task (guard) has released its count
 Dropped(g) == gpc[g] \in {"none", "mid", "done"}
-Safety == wpc = "Done" => \A g \in Guards : gpc[g] # "held"
+Safety == wpc = "Done" => (running = {} /\ \A g \in Guards : gpc[g] # "held")
 \* ... in the unswapped design the count tells exactly how many guards are still held
 CountIsHeld == Deviation = "none" => count = Cardinality({g \in Guards : gpc[g] = "held"})
 \* a parked waiter has a future that has seen every notification so far
 ParkedArmed == wpc = "P" => armed = epoch
 \* C41, second half: once every guard finished dropping (for good), the waiter finishes
-AllDone == \A g \in Guards : gpc[g] \in {"none", "done"}
+AllDone == running = {} /\ \A g \in Guards : gpc[g] \in {"none", "done"}
 Live == <>[]AllDone => <>(wpc = "Done")
 =============================================================================
